@@ -1,7 +1,7 @@
 CONSTANTS
-  Variant = "abort_drops_args"
-  Family = "abort"
-  Size = "m"
+  Variant = "fixed"
+  Family = "all"
+  Size = "q"
 INIT Init
 NEXT Next
 CHECK_DEADLOCK FALSE
